@@ -151,6 +151,7 @@ type ReqCase struct {
 	Form     map[string]string `json:"form,omitempty"`
 	Body     string            `json:"body,omitempty"`  // JSON object text
 	Twice    bool              `json:"twice,omitempty"` // convert the same request object twice
+	Rewrite  bool              `json:"rewrite,omitempty"` // the request object first served a conversion with an empty query string; the query is then rewritten in place
 }
 
 var safeTokens = []string{"a", "abc", "x-1", "v_2", "Zq", "0", "7", "true", "hello.world", "k"}
@@ -335,6 +336,7 @@ func genReq(t *rapid.T) ReqCase {
 		cs.Form = map[string]string{}
 	}
 	cs.Twice = rapid.IntRange(0, 3).Draw(t, "twice") == 0
+	cs.Rewrite = rapid.IntRange(0, 3).Draw(t, "rewrite") == 0
 	return cs
 }
 
@@ -906,11 +908,29 @@ func checkReq(c *pbt.Ctx, cs ReqCase) {
 	co := conv.Options{EnableHttpMapping: cs.O.Enable, ReadHttpValueFallback: cs.O.Fallback, TracebackRequredOrRootFields: cs.O.Traceback,
 		WriteRequireField: cs.O.WR, WriteDefaultField: cs.O.WD, WriteOptionalField: cs.O.WO}
 	cv := j2t.NewBinaryConv(co)
-	ctx := context.WithValue(context.Background(), conv.CtxKeyHTTPRequest, req)
 	var body []byte
 	if cs.BodyKind == "json" {
 		body = []byte(cs.Body)
 	}
+	if cs.Rewrite && len(cs.Query) > 0 {
+		// the request object has been converted before, when its query string was still empty (as if a middleware
+		// added the query afterwards): whatever it is asked next, it must answer from the request as it is now
+		cs0 := cs
+		cs0.Query = nil
+		early, err := buildRequest(cs0)
+		if err != nil {
+			c.Failf("harness-request", "cannot build the request: %v", err)
+			return
+		}
+		c.Step("a conversion of the same request object while its query string is empty")
+		c.Protect("", func() {
+			_, _ = cv.Do(context.WithValue(context.Background(), conv.CtxKeyHTTPRequest, early), comp.Root, body)
+		})
+		early.URL.RawQuery = req.URL.RawQuery
+		req = early
+		c.Class("query-rewritten-in-place")
+	}
+	ctx := context.WithValue(context.Background(), conv.CtxKeyHTTPRequest, req)
 	rounds := 1
 	if cs.Twice {
 		rounds = 2
